@@ -83,7 +83,7 @@ Definition sem_default_defaults : list expr := [(XConst PNone)].
 (* beanquery.parser.parse *)
 Definition parser_parse : fdef :=
   {| f_params := ["text"];
-     f_body := [(SAssign (TName "text") (XCall (XConst (PRef 2)) [(XConst (PV (VStr [78; 70; 67]))); (XName "text")] None)); (STry [(SReturn (Some (XCallMethod (XPrim "new:beanquery.parser.parser.BQLParser" []) "parse:semantics" [(XName "text"); (XPrim "new:beanquery.parser.BQLSemantics" [])])))] [30] [(SAssign (TName "exc") (XPrim "caught:tatsu.exceptions.ParseError" [(XName "text")])); (SAssign (TName "line") (XIfExp (XAttr (XAttr (XName "exc") "tokenizer") "text") (XAttr (XCallMethod (XAttr (XName "exc") "tokenizer") "line_info" [(XAttr (XName "exc") "pos")]) "line") (XConst (PInt 0)))); (SAssign (TName "parseinfo") (XPrim "new:tatsu.infos.ParseInfo" [(XAttr (XName "exc") "tokenizer"); (XAttr (XName "exc") "item"); (XAttr (XName "exc") "pos"); (XPrim "builtins.min" [(XBin OAdd (XAttr (XName "exc") "pos") (XConst (PInt 1))); (XLen (XAttr (XAttr (XName "exc") "tokenizer") "text"))]); (XName "line"); (XList [])])); (SReturn (Some (XPrim "raise" [(XPrim "new:beanquery.parser.ParseError" [(XName "parseinfo")])])))])];
+     f_body := [(STry [(SReturn (Some (XCallMethod (XPrim "new:beanquery.parser.parser.BQLParser" []) "parse:semantics" [(XName "text"); (XPrim "new:beanquery.parser.BQLSemantics" [])])))] [30] [(SAssign (TName "exc") (XPrim "caught:tatsu.exceptions.ParseError" [(XName "text")])); (SAssign (TName "line") (XIfExp (XAttr (XAttr (XName "exc") "tokenizer") "text") (XAttr (XCallMethod (XAttr (XName "exc") "tokenizer") "line_info" [(XAttr (XName "exc") "pos")]) "line") (XConst (PInt 0)))); (SAssign (TName "parseinfo") (XPrim "new:tatsu.infos.ParseInfo" [(XAttr (XName "exc") "tokenizer"); (XAttr (XName "exc") "item"); (XAttr (XName "exc") "pos"); (XPrim "builtins.min" [(XBin OAdd (XAttr (XName "exc") "pos") (XConst (PInt 1))); (XLen (XAttr (XAttr (XName "exc") "tokenizer") "text"))]); (XName "line"); (XList [])])); (SReturn (Some (XPrim "raise" [(XPrim "new:beanquery.parser.ParseError" [(XName "parseinfo")])])))])];
      f_gen := false |}.
 
 (* beanquery.parser.ParseError.__init__ *)
@@ -93,7 +93,7 @@ Definition parse_error_init : fdef :=
      f_gen := false |}.
 
 Definition refs : list (nat * string) :=
-  [(0%nat, "beanquery.parser._NULL"); (1%nat, "beanquery.parser.ast"); (2%nat, "unicodedata.normalize")].
+  [(0%nat, "beanquery.parser._NULL"); (1%nat, "beanquery.parser.ast")].
 
 (* DATA read from the live objects (see harness/vf/src_semantics.py) *)
 Definition semantics_methods : list string :=
